@@ -45,3 +45,6 @@ Fixpoint dedup_sorted (l : list N) : list N :=
 Definition multiset_eqb (a b : list N) : bool := list_eqb N.eqb (sortN a) (sortN b).
 Definition set_eqb (a b : list N) : bool :=
   list_eqb N.eqb (dedup_sorted (sortN a)) (dedup_sorted (sortN b)).
+
+Definition impb (a b : bool) : bool := negb a || b.
+Infix "==>" := impb (at level 55, right associativity).
